@@ -148,15 +148,20 @@ static void ChkDelayed(void) {
 /* Adressparsing */
 
 static char* LiteralName(PLiteral Lit, char* Result, int ResultSize) {
-    as_snprintf(Result, ResultSize, "LITERAL_");
+    /* a symbol name: formatted with the C library so that the listing options
+       -SPLITBYTE/-h cannot shape it */
+    char Num[48];
+
     if (Lit->IsForward) {
-        as_snprcatf(Result, ResultSize, "F_%08" PRIx64, (LargeWord)Lit->FCount);
+        sprintf(Num, "F_%08" PRIX64, (LargeWord)Lit->FCount);
     } else if (Lit->Is32) {
-        as_snprcatf(Result, ResultSize, "L_%08" PRIx64, (LargeWord)Lit->Value);
+        sprintf(Num, "L_%08" PRIX64, (LargeWord)Lit->Value);
     } else {
-        as_snprcatf(Result, ResultSize, "W_%04x", (unsigned)Lit->Value);
+        sprintf(Num, "W_%04X", (unsigned)Lit->Value);
     }
-    as_snprcatf(Result, ResultSize, "_%x", (unsigned)Lit->PassNo);
+    as_snprintf(Result, ResultSize, "LITERAL_%s", Num);
+    sprintf(Num, "_%X", (unsigned)Lit->PassNo);
+    as_snprcatf(Result, ResultSize, "%s", Num);
     return Result;
 }
 
